@@ -14,6 +14,7 @@ struct Act {
     int hold;
     bool throws;
     uint32_t id;
+    int nested = 0;  // two-object rounds: the functor (running under A's lock) also uses a second object B: 1 B.modify_detach, 2 B.lock_shared
 };
 struct SubRec {
     int thread;
@@ -41,7 +42,7 @@ struct Shared {
     }
 };
 
-static int functor_body(Cell& c, uint32_t id, bool throws, int hold, Shared* sh)
+static int functor_body(Cell& c, uint32_t id, bool throws, int hold, Shared* sh, const std::function<void()>* nested = nullptr)
 {
     Win w(c, true);
     vrf::tl_vt_label = static_cast<int>(id);
@@ -52,6 +53,7 @@ static int functor_body(Cell& c, uint32_t id, bool throws, int hold, Shared* sh)
     if (throws) throw Boom{id};
     c.append_raw(id);
     sh->seen_len[id].store(c.n, std::memory_order_relaxed);
+    if (nested && *nested) (*nested)();  // user code may use other wrappers from inside a modification
     return static_cast<int>(c.n);
 }
 
@@ -62,6 +64,10 @@ static void one_round(long r, const char* mname)
     vrf::Round R(r);
     auto& rng = R.rng;
     int nsub = static_cast<int>(rng.range(1, 3)), nrd = static_cast<int>(rng.range(1, 3));
+    // two-object rounds: some functors applied to A also use a second deferred_guarded B of the same type (queue a write on
+    // it / take a shared handle, which may drain B's queue from inside A's drain), while another thread keeps B busy
+    bool two = rng.chance(30);
+    if (two && nrd > 2) nrd = 2;
     std::vector<std::vector<Act>> scripts;
     uint32_t id = 1;
     for (int t = 0; t < nsub; t++) {
@@ -69,7 +75,7 @@ static void one_round(long r, const char* mname)
         int n = static_cast<int>(rng.range(1, 5));
         for (int i = 0; i < n && id < 26; i++) {
             static const char kinds[] = {'D', 'D', 'A', 'V'};
-            sc.push_back(Act{kinds[rng.below(4)], 0, static_cast<int>(rng.below(3)), rng.chance(12), id++});
+            sc.push_back(Act{kinds[rng.below(4)], 0, static_cast<int>(rng.below(3)), rng.chance(12), id++, two ? static_cast<int>(rng.below(3)) : 0});
             if (rng.chance(15)) sc.push_back(Act{'R', static_cast<int>(rng.below(4)), static_cast<int>(rng.below(3)), false, 0});
         }
         scripts.push_back(sc);
@@ -88,13 +94,41 @@ static void one_round(long r, const char* mname)
     for (size_t t = 0; t < scripts.size(); t++) {
         if (t) pj += ",";
         pj += vrf::jarr(scripts[t].begin(), scripts[t].end(), [](const Act& a) {
-            return std::string("{\"k\":\"") + a.kind + "\",\"form\":" + std::to_string(a.form) + ",\"hold\":" + std::to_string(a.hold) + ",\"throws\":" + (a.throws ? "1" : "0") + ",\"id\":" + std::to_string(a.id) + "}";
+            return std::string("{\"k\":\"") + a.kind + "\",\"form\":" + std::to_string(a.form) + ",\"hold\":" + std::to_string(a.hold) + ",\"throws\":" + (a.throws ? "1" : "0") + ",\"id\":" + std::to_string(a.id) + (a.nested ? ",\"uses_second_object\":" + std::to_string(a.nested) : std::string()) + "}";
         });
     }
-    pj += "]}";
+    pj += std::string("],\"second_object\":") + (two ? "1" : "0") + "}";
     R.program(pj);
     std::unique_ptr<DG> dg(new DG(false));
-    Shared sh;
+    std::unique_ptr<DG> dgb(two ? new DG(false) : nullptr);
+    Shared sh, shb;
+    std::atomic<uint32_t> b_next{1};
+    std::atomic<uint32_t> b_submitted[MAXID];
+    for (auto& x : b_submitted) x.store(0);
+    DG* dgbp = dgb.get();
+    Shared* shbp = &shb;
+    auto make_hook = [&b_next, &b_submitted, dgbp, shbp](int kind) -> std::shared_ptr<std::function<void()>> {
+        if (kind == 0 || dgbp == nullptr) return nullptr;
+        std::atomic<uint32_t>* nextp = &b_next;
+        std::atomic<uint32_t>* subp = b_submitted;
+        return std::make_shared<std::function<void()>>([kind, dgbp, shbp, nextp, subp] {
+            try {
+                if (kind == 1) {
+                    uint32_t bid = nextp->fetch_add(1, std::memory_order_relaxed);
+                    if (bid >= MAXID) return;
+                    subp[bid].store(1, std::memory_order_relaxed);
+                    dgbp->modify_detach([bid, shbp](Cell& c) { (void)functor_body(c, bid, false, 0, shbp); });
+                } else {
+                    auto h = dgbp->lock_shared();
+                    Win w(*h, false);
+                    h->check("second object, from inside a modification of the first");
+                }
+            }
+            catch (const std::exception& e) {
+                vrf::violation("oracle:exception_from_second_object_inside_a_modification", vrf::jstr(e.what()));
+            }
+        });
+    };
     std::vector<SubRec> subs[vrf::MAXT];
     std::vector<std::pair<uint32_t, std::future<int>>> futs_i[vrf::MAXT];
     std::vector<std::pair<uint32_t, std::future<void>>> futs_v[vrf::MAXT];
@@ -131,14 +165,15 @@ static void one_round(long r, const char* mname)
                 uint32_t fid = a.id;
                 bool thr = a.throws;
                 int hold = a.hold;
+                auto hook = make_hook(a.nested);
                 s.call = vrf::now();
                 try {
                     if (a.kind == 'D') {
-                        dg->modify_detach([fid, thr, hold, shp](Cell& c) { (void)functor_body(c, fid, thr, hold, shp); });
+                        dg->modify_detach([fid, thr, hold, shp, hook](Cell& c) { (void)functor_body(c, fid, thr, hold, shp, hook.get()); });
                     } else if (a.kind == 'A') {
-                        futs_i[t].emplace_back(fid, dg->modify_async([fid, thr, hold, shp](Cell& c) { return functor_body(c, fid, thr, hold, shp); }));
+                        futs_i[t].emplace_back(fid, dg->modify_async([fid, thr, hold, shp, hook](Cell& c) { return functor_body(c, fid, thr, hold, shp, hook.get()); }));
                     } else {
-                        futs_v[t].emplace_back(fid, dg->modify_async([fid, thr, hold, shp](Cell& c) { (void)functor_body(c, fid, thr, hold, shp); }));
+                        futs_v[t].emplace_back(fid, dg->modify_async([fid, thr, hold, shp, hook](Cell& c) { (void)functor_body(c, fid, thr, hold, shp, hook.get()); }));
                     }
                 }
                 catch (const Boom& b) {
@@ -149,6 +184,19 @@ static void one_round(long r, const char* mname)
                 s.ret = vrf::now();
                 if (vrf::held_count() != 0) vrf::violation("oracle:lock_held_after_submission_returned", "{\"id\":" + std::to_string(fid) + "}");
                 subs[t].push_back(s);
+            }
+        });
+    }
+    if (two) {
+        R.spawn([&] {
+            for (int i = 0; i < 3; i++) {
+                {
+                    auto h = dgb->lock_shared();  // while this handle lives, writes to B are queued
+                    Win w(*h, false);
+                    h->check("second object reader");
+                    for (int k = 0; k < 4; k++) vrf::hyield();
+                }
+                vrf::hyield();
             }
         });
     }
@@ -250,6 +298,33 @@ static void one_round(long r, const char* mname)
                 vrf::violation("oracle:future_error", vrf::jstr(e.what()));
             }
         }
+    }
+    if (two) {
+        std::vector<uint32_t> finb;
+        vrf::run_checked(r, [&] {
+            try {
+                auto h = dgb->lock_shared();
+                finb = h->log();
+            }
+            catch (const std::exception& e) {
+                vrf::violation("oracle:exception_from_second_object", vrf::jstr(e.what()));
+            }
+        });
+        std::set<uint32_t> seen(finb.begin(), finb.end());
+        if (seen.size() != finb.size()) vrf::violation("oracle:update_applied_twice", "{\"object\":\"second\",\"final\":" + vrf::jnums(finb) + "}");
+        uint64_t nb = 0;
+        for (uint32_t b = 1; b < MAXID; b++) {
+            if (!b_submitted[b].load()) continue;
+            nb++;
+            uint32_t n = shb.exec_count[b].load();
+            if (n == 0) vrf::violation("oracle:modification_stranded", "{\"object\":\"second\",\"id\":" + std::to_string(b) + "}");
+            if (n > 1) vrf::violation("oracle:modification_executed_twice", "{\"object\":\"second\",\"id\":" + std::to_string(b) + "}");
+            if (!seen.count(b)) vrf::violation("oracle:lost_update", "{\"object\":\"second\",\"missing\":" + std::to_string(b) + "}");
+        }
+        if (nb != finb.size()) vrf::violation("oracle:final_value_has_unknown_entries", "{\"object\":\"second\",\"final\":" + vrf::jnums(finb) + "}");
+        vrf::count("two_object_rounds");
+        vrf::count("modifications_of_the_second_object_from_inside_a_modification", nb);
+        vrf::run_checked(r, [&] { dgb.reset(); });
     }
     vrf::run_checked(r, [&] { dg.reset(); });
     uint64_t sig = vrf::mixhash(R.sched_sig, std::hash<std::string>()(pj));
